@@ -333,7 +333,23 @@ class Engine:
     # ------------------------------------------------------------------ sequences
     def seq_parts(self, v, st):
         term = self.load(v, st)
-        return T.seq_len(v.ty, term), T.seq_arr(v.ty, term)
+        ln = T.seq_len(v.ty, term)
+        self.nonneg(ln, st)
+        return ln, T.seq_arr(v.ty, term)
+
+    def nonneg(self, ln, st):
+        """Lengths of sequences are non-negative (a fact about every Python sequence, added once per term)."""
+        if z3.is_int_value(ln):
+            return
+        key = ln.get_id()
+        seen = st.env.get('!nonneg')
+        if seen is None:
+            seen = st.env['!nonneg'] = V(PY, py=set())
+        if key in seen.py:
+            return
+        seen.py.add(key)
+        if z3.is_app(ln) and ln.decl().name() in ('len', 'n0', 'n1'):
+            st.pc.append(ln >= 0)
 
     def mk_list(self, st, elem_ty, ln, arr, kind='List', cell=True):
         t = Ty(kind, (elem_ty,))
